@@ -3,3 +3,5 @@ package props
 import "testing"
 
 func TestC20(t *testing.T) { runProp(t, "C20", drawC20) }
+
+func TestC19(t *testing.T) { runProp(t, "C19", drawC19) }
